@@ -248,7 +248,7 @@ def gen_text(rng, allow_ok=True):
 
 def gen_reply(rng, cb=False, code=None, oklike=False):
     if code is None:
-        code = rng.choice([250, 250, 250, 250, 251, 552, 510, 515, 551])
+        code = rng.choice([250, 250, 250, 250, 251, 552, 510, 515, 551, 200, 299, 500, 599])
     parts = []
     # lines that look like "OK" inside the reply to a per-line-callback command hit finding C01-F1: rare
     ok = (not cb) or (oklike and rng.random() < 0.03)
